@@ -13,15 +13,16 @@ import (
 )
 
 type item struct {
-	Bop     string `json:"bop"`
-	Out     string `json:"out"`
-	Package string `json:"package"`
-	Unsafe  bool   `json:"unsafe"`
-	Shared  bool   `json:"shared"`
-	Tags    bool   `json:"tags"`
-	Private bool   `json:"private"`
-	PtrRecv bool   `json:"ptr_recv"`
-	Err     string `json:"err,omitempty"`
+	Bop      string `json:"bop"`
+	Out      string `json:"out"`
+	Package  string `json:"package"`
+	Unsafe   bool   `json:"unsafe"`
+	Shared   bool   `json:"shared"`
+	Tags     bool   `json:"tags"`
+	Private  bool   `json:"private"`
+	PtrRecv  bool   `json:"ptr_recv"`
+	Combined bool   `json:"combined,omitempty"`
+	Err      string `json:"err,omitempty"`
 }
 
 func main() {
@@ -58,9 +59,16 @@ func main() {
 				it.Err = "ReadFile: " + err.Error()
 				return
 			}
+			// imports are resolved relative to the file
+			f.FileName = it.Bop
+			mode := bebop.ImportGenerationModeSeparate
+			if it.Combined {
+				mode = bebop.ImportGenerationModeCombined
+			}
 			var out bytes.Buffer
 			err = f.Generate(&out, bebop.GenerateSettings{PackageName: it.Package, GenerateUnsafeMethods: it.Unsafe,
-				SharedMemoryStrings: it.Shared, GenerateFieldTags: it.Tags, PrivateDefinitions: it.Private, AlwaysUsePointerReceivers: it.PtrRecv})
+				SharedMemoryStrings: it.Shared, GenerateFieldTags: it.Tags, PrivateDefinitions: it.Private, AlwaysUsePointerReceivers: it.PtrRecv,
+				ImportGenerationMode: mode})
 			if err != nil {
 				it.Err = "Generate: " + err.Error()
 				return
